@@ -3,9 +3,10 @@ CONSTANTS
   Fanout = 2
   CacheCap = 2
   Queries <- AllQ
+  ZRecs <- FileZ
   MaxSteps = 2
   FileId = 2
 INIT MCInit
 NEXT MCNext
-INVARIANTS HistoryIndependent CacheCoherent Emit
+INVARIANTS HistoryIndependent ZoomHistoryIndependent CacheCoherent Emit
 CHECK_DEADLOCK FALSE
